@@ -3,6 +3,7 @@ import CkbVerif.Model.Dao
 import CkbVerif.Lemmas.Dao
 import CkbVerif.Lemmas.Reward
 import CkbVerif.Lemmas.RewardWalk
+import CkbVerif.Lemmas.RewardVerifier
 
 /-!
 # C06 — rewards, fee split and DAO field follow the issuance rules; nothing else mints
@@ -131,6 +132,179 @@ example : rewardVerify defaultWin 11 1000 6100000000 [] = some .ok ∧
     rewardVerify defaultWin 11 7000000000 6100000000 [(7000000001, true)] = some .invalidRewardAmount ∧
     rewardVerify defaultWin 10 7000000000 6100000000 [(7000000000, true)] = some .invalidRewardTarget := by
   decide
+
+/-! ## `RewardVerifier`: the three-way rule, exactly; nothing else mints -/
+
+/-- **`RewardVerifier::verify` accepts a cellbase iff** one of
+(1) there is no finalisation target yet (`parent + 1 ≤ finalization_delay`) and the cellbase has no
+    outputs;
+(2) there is a target, the reward cannot fill a cell locked with the target's lock
+    (`occupied > total`) and the cellbase has no outputs;
+(3) there is a target, the reward fills the cell, the outputs sum to exactly `total` (as natural
+    numbers — and `total` fits a u64) and the first output carries the target's lock.
+Both directions, for every input; `outsSum` is the unbounded sum of the output capacities. -/
+theorem reward_verifier_accepts_iff (w : Win) (P total lockOcc : Nat) (outs : List (Nat × Bool)) :
+    rewardVerify w P total lockOcc outs = some .ok ↔
+      (P + 1 ≤ finalizationDelay w ∧ outs = []) ∨
+      (finalizationDelay w < P + 1 ∧ lockOcc > total ∧ outs = []) ∨
+      (finalizationDelay w < P + 1 ∧ lockOcc ≤ total ∧ outsSum outs = total ∧ total < U64 ∧
+        ∃ o rest, outs = o :: rest ∧ o.2 = true) := by
+  rw [rewardVerify_ok_iff]
+  constructor
+  · rintro (⟨hex, rfl⟩ | ⟨hex, h⟩)
+    · by_cases hn : P + 1 ≤ finalizationDelay w
+      · exact .inl ⟨hn, rfl⟩
+      · exact .inr (.inl ⟨by omega, by omega, rfl⟩)
+    · exact .inr (.inr ⟨by omega, by omega, h⟩)
+  · rintro (⟨hn, rfl⟩ | ⟨_, hi, rfl⟩ | ⟨hn, hs, h⟩)
+    · exact .inl ⟨.inl hn, rfl⟩
+    · exact .inl ⟨.inr hi, rfl⟩
+    · exact .inr ⟨by omega, h⟩
+
+example : rewardVerify defaultWin 9 5000000000 6100000000 [] = some .ok ∧                    -- (1)
+    rewardVerify defaultWin 11 6099999999 6100000000 [] = some .ok ∧                         -- (2)
+    rewardVerify defaultWin 11 6099999999 6100000000 [(6099999999, true)] = some .invalidRewardTarget ∧
+    rewardVerify defaultWin 11 6100000000 6100000000 [(6100000000, true)] = some .ok ∧       -- (3)
+    rewardVerify defaultWin 11 6100000000 6100000000 [] = some .invalidRewardAmount := by decide
+
+/-- with `CellbaseVerifier`'s "at most one output" in front, the accepted cellbase is unique: a
+block passes both verifiers **iff** its cellbase outputs are exactly `expectedCellbase` — nothing
+in the two exempt cases, else the single cell `(total, target's lock)` -/
+theorem cellbase_accepted_iff (w : Win) (P total lockOcc : Nat) (outs : List (Nat × Bool))
+    (hT : total < U64) :
+    cellbaseVerify w P total lockOcc outs = some .ok ↔ outs = expectedCellbase w P total lockOcc := by
+  rw [cellbaseVerify_ok_iff, rewardVerify_ok_iff]
+  unfold expectedCellbase
+  by_cases hex : P + 1 ≤ finalizationDelay w ∨ lockOcc > total
+  · simp only [hex, if_true, true_and, not_true_eq_false, false_and, or_false]
+    constructor
+    · rintro ⟨_, h⟩; exact h
+    · rintro rfl; exact ⟨by simp, rfl⟩
+  · simp only [hex, if_false, false_and, false_or, not_false_eq_true, true_and]
+    constructor
+    · rintro ⟨hl, hs, _, o, rest, rfl, ho⟩
+      cases rest with
+      | nil =>
+        simp only [outsSum, Nat.add_zero] at hs
+        cases o with
+        | mk a b => simp only at hs ho; subst hs; subst ho; rfl
+      | cons _ _ => simp at hl
+    · rintro rfl
+      exact ⟨by simp, by simp [outsSum], hT, _, _, rfl, rfl⟩
+
+example : expectedCellbase defaultWin 11 6099999999 6100000000 = [] ∧
+    expectedCellbase defaultWin 11 6100000000 6100000000 = [(6100000000, true)] ∧
+    cellbaseVerify defaultWin 11 6100000000 6100000000 [(6100000000, true)] = some .ok ∧
+    cellbaseVerify defaultWin 11 6100000000 6100000000 [(6000000000, true), (100000000, true)] =
+      some .invalidOutputQuantity ∧
+    rewardVerify defaultWin 11 6100000000 6100000000 [(6000000000, true), (100000000, true)] = some .ok := by
+  decide
+
+/-- an accepted cellbase creates exactly the reward total when the block pays, and nothing
+otherwise -/
+theorem cellbase_mints_exactly (w : Win) (P total lockOcc : Nat) (outs : List (Nat × Bool))
+    (h : rewardVerify w P total lockOcc outs = some .ok) :
+    outsSum outs = if P + 1 ≤ finalizationDelay w ∨ lockOcc > total then 0 else total := by
+  rcases (rewardVerify_ok_iff w P total lockOcc outs).1 h with ⟨hex, rfl⟩ | ⟨hex, hs, _⟩
+  · simp [hex, outsSum]
+  · simp [hex, hs]
+
+/-- **no minting when the reward cannot fill a cell** (nor before the first finalisation): an
+accepted cellbase then creates no capacity at all — whatever the miner put into it. This is the
+clause the seeded regression removes (`dropped_insufficient_alternative_admits_minting`). -/
+theorem no_minting_when_insufficient (w : Win) (P total lockOcc : Nat) (outs : List (Nat × Bool))
+    (h : rewardVerify w P total lockOcc outs = some .ok)
+    (hex : P + 1 ≤ finalizationDelay w ∨ lockOcc > total) : outsSum outs = 0 ∧ outs = [] := by
+  have := cellbase_mints_exactly w P total lockOcc outs h
+  rw [if_pos hex] at this
+  refine ⟨this, ?_⟩
+  rcases (rewardVerify_ok_iff w P total lockOcc outs).1 h with ⟨_, h⟩ | ⟨hne, _⟩
+  · exact h
+  · exact absurd hex hne
+
+example : ∃ outs, rewardVerify defaultWin 11 1000 6100000000 outs = some .ok := ⟨[], by decide⟩
+
+/-- negative witness: the verifier **without** the `|| insufficient_reward_to_create_cell`
+alternative (the amount/lock checks stay guarded by `if !insufficient…`) accepts a cellbase that
+creates 1 000 000 CKB while the reward to finalise is 1000 shannons; the verifier as written
+rejects it. (`seeded/C06/m3-insufficient-reward-falls-through`.) -/
+theorem dropped_insufficient_alternative_admits_minting :
+    rewardVerifyDroppedAlternative defaultWin 12 1000 6100000000 [(100000000000000, true)] = some .ok ∧
+    rewardVerify defaultWin 12 1000 6100000000 [(100000000000000, true)] = some .invalidRewardTarget ∧
+    outsSum [(100000000000000, true)] = 100000000000000 := by decide
+
+/-- **nothing else mints**: over any sequence of blocks accepted by `RewardVerifier` (any chain,
+any fork — the blocks need not even be consecutive), the capacity created by all cellbases is
+exactly the sum of the reward totals of the blocks that have a finalisation target whose reward
+fills a cell; in particular it never exceeds the sum of the reward totals, each of which is
+`primary + secondary + committer shares + proposer shares` of its target
+(`block_reward_eq_parts`), the fee shares being capacity given up by transactions
+(`txs_fees_eq_sum`, `fee_distributed_exactly_once`) and `primary + g2` being exactly what the
+DAO field adds to `C` (`dao_accounts_over_chain`, `secondary_issuance_conserved`). -/
+theorem no_other_minting (w : Win) (bs : List CbBlock)
+    (h : ∀ b ∈ bs, rewardVerify w b.parent b.total b.lockOcc b.outs = some .ok) :
+    minted bs = due w bs ∧ minted bs ≤ totals bs := by
+  have key : minted bs = due w bs := by
+    induction bs with
+    | nil => rfl
+    | cons b bs ih =>
+      have hb := cellbase_mints_exactly w b.parent b.total b.lockOcc b.outs (h b (by simp))
+      have ih' := ih (fun b' hb' => h b' (by simp [hb']))
+      simp only [minted, due, ih', hb, CbBlock.pays]
+      by_cases hex : b.parent + 1 ≤ finalizationDelay w ∨ b.lockOcc > b.total
+      · have : ¬ (finalizationDelay w < b.parent + 1 ∧ b.lockOcc ≤ b.total) := by omega
+        simp [hex, this]
+      · have : finalizationDelay w < b.parent + 1 ∧ b.lockOcc ≤ b.total := by omega
+        simp [hex, this]
+  exact ⟨key, key ▸ due_le_totals w bs⟩
+
+example : minted [⟨9, 7000000000, 6100000000, []⟩, ⟨11, 1000, 6100000000, []⟩,
+      ⟨12, 7000000000, 6100000000, [(7000000000, true)]⟩] = 7000000000 ∧
+    due defaultWin [⟨9, 7000000000, 6100000000, []⟩, ⟨11, 1000, 6100000000, []⟩,
+      ⟨12, 7000000000, 6100000000, [(7000000000, true)]⟩] = 7000000000 := by decide
+
+/-- **along a chain every target is paid at most once and nothing else is**: on a chain whose
+blocks `1..n` all pass `RewardVerifier` — block `i` against the reward total of its finalisation
+target `i − finalization_delay` — the capacity created by all cellbases together is at most the
+sum of the reward totals of the targets `1 .. n − finalization_delay` (each counted once; the
+last `finalization_delay` blocks are not paid yet), whatever the miners' locks and whatever the
+cellbases contain. With `block_reward_eq_parts` (total = primary + secondary + fee shares),
+`secondary_issuance_conserved` (miner secondary ≤ g2) and `dao_accounts_over_chain`
+(`C_n − C_0 = Σ (primary + g2)`): miners never receive more than `C`'s growth plus fee shares. -/
+theorem minted_le_finalised_rewards (w : Win) (rewards lockOcc : Nat → Nat)
+    (outs : Nat → List (Nat × Bool)) (n : Nat)
+    (h : ∀ i, 1 ≤ i → i ≤ n →
+      rewardVerify w (i - 1) (rewards (i - finalizationDelay w)) (lockOcc i) (outs i) = some .ok) :
+    sumTo (fun i => outsSum (outs i)) n ≤ sumTo rewards (n - finalizationDelay w) ∧
+    sumTo rewards (n - finalizationDelay w) ≤ sumTo rewards n := by
+  refine ⟨?_, sumTo_mono rewards (Nat.sub_le _ _)⟩
+  induction n with
+  | zero => simp [sumTo]
+  | succ n ih =>
+    have ih' := ih (fun i h1 h2 => h i h1 (by omega))
+    have hm := cellbase_mints_exactly w (n + 1 - 1) (rewards (n + 1 - finalizationDelay w))
+      (lockOcc (n + 1)) (outs (n + 1)) (h (n + 1) (by omega) (Nat.le_refl _))
+    simp only [sumTo]
+    by_cases hd : n + 1 ≤ finalizationDelay w
+    · have h0 : n + 1 - finalizationDelay w = 0 := by omega
+      have h0' : n - finalizationDelay w = 0 := by omega
+      have hex : n + 1 - 1 + 1 ≤ finalizationDelay w ∨
+          lockOcc (n + 1) > rewards (n + 1 - finalizationDelay w) := .inl (by omega)
+      rw [if_pos hex] at hm
+      rw [h0'] at ih'
+      rw [h0, hm]
+      simp only [sumTo] at ih' ⊢
+      omega
+    · have hs : n + 1 - finalizationDelay w = (n - finalizationDelay w) + 1 := by omega
+      have hle : outsSum (outs (n + 1)) ≤ rewards (n + 1 - finalizationDelay w) := by
+        rw [hm]; split <;> omega
+      rw [hs] at hle ⊢
+      simp only [sumTo]
+      omega
+
+example : sumTo (fun i => outsSum (if i = 4 then [(70, true)] else [])) 5 = 70 ∧
+    (∀ i, i ≤ 5 → 1 ≤ i → rewardVerify ⟨1, 2⟩ (i - 1) (if i - 3 = 1 then 70 else 5) 61
+      (if i = 4 then [(70, true)] else []) = some .ok) := by decide
 
 /-! ## the proposer share: the backwards walk -/
 
